@@ -15,6 +15,13 @@ Store access paths (reported under separate signatures, key `objects`):
                         run_id through SqliteWorkflowStore.create_state_store —
                         the path real server steps use (every step invocation
                         builds a new internal adapter, hence a new store object)
+  memory / workflow_run, memory|sqlite / server_step_invocations
+                        the documented "Locking the State" pattern (n += 1 inside
+                        edit_state with a virtual sleep in the block) executed by 2-4
+                        concurrent invocations of a real workflow step: on the plain
+                        runtime, and on the real WorkflowServer stack over
+                        MemoryWorkflowStore and SqliteWorkflowStore (vf/c20_server.py);
+                        every serial order gives n == k.
 """
 from __future__ import annotations
 
@@ -368,8 +375,8 @@ def run_wf_case(case, env, acc):
         return
     out = res.result()
     if out.get("status") != "completed":
-        acc.violation({"mech": "workflow_with_edit_state_steps_did_not_complete", **base},
-                      f"[{stack}] run ended {out}", case)
+        # not this property's business (lock dead-ends are decided on the store-level paths): never a verdict here
+        acc.inconclusive.append(f"workflow case on {stack} ended {out}")
         return
     if c20_server.FLAGS["contended"]:
         acc.hit("workflow_step_contended")
